@@ -1,8 +1,8 @@
 /-
 Model of mistral's *default* scheduler protocol (mistral/scheduler/default_scheduler.py
 + the scheduled-job functions of mistral/db/v2/sqlalchemy/api.py) at DB-call
-granularity, plus a small model of the legacy scheduler
-(mistral/services/legacy_scheduler.py).
+granularity.  The legacy scheduler (mistral/services/legacy_scheduler.py) is modelled in
+Model/SchedLegacy.lean.
 
 Core Lean only (linked into the compiled driver).  Everything is total and
 structurally recursive so that `decide` can evaluate concrete runs.
@@ -395,91 +395,5 @@ def timelyB (cfg : Cfg) (s : State) : Bool :=
           | .deleted j' td i' => decide (j' = j) && decide (i' = i) && decide (td < t + cfg.timeout)
           | _ => false
     | _ => true
-
-/-! ## Legacy scheduler (mistral/services/legacy_scheduler.py)
-
-Rows have a boolean `processing` flag; `_capture_calls` selects
-`execution_time < now + 1` with `processing = False` and CASes the flag; there is no
-recapture.  One `_process_delayed_calls` iteration per instance: capture all, invoke all,
-delete all. -/
-
-structure LRow where
-  executeAt : Nat
-  processing : Bool
-  vis : Vis
-deriving DecidableEq, Repr
-
-inductive LPhase where
-  | idle
-  | captured (ids : List Nat)
-  | invoked (ids : List Nat)
-deriving DecidableEq, Repr
-
-structure LState where
-  clock : Nat
-  rows : List LRow
-  insts : List (Bool × LPhase)     -- (alive, phase)
-  log : List (Nat × Nat × Nat)     -- (job, time, instance), newest first
-deriving DecidableEq, Repr
-
-inductive LStep where
-  | schedule (runAfter tx : Nat)
-  | commit (tx : Nat)
-  | rollback (tx : Nat)
-  | tick (n : Nat)
-  | capture (i : Nat)
-  | invoke (i : Nat)
-  | delete (i : Nat)
-  | crash (i : Nat)
-deriving DecidableEq, Repr
-
-def lInit (n : Nat) : LState := { clock := 0, rows := [], insts := List.replicate n (true, .idle), log := [] }
-
-def lEligible (clock : Nat) (r : LRow) : Bool :=
-  decide (r.vis = .committed) && decide (r.executeAt < clock + 1) && !r.processing
-
-def lCaptureIds (clock : Nat) (rows : List LRow) : List Nat :=
-  rows.zipIdx.filterMap fun (r, j) => if lEligible clock r then some j else none
-
-def lMark (ids : List Nat) (rows : List LRow) : List LRow :=
-  rows.zipIdx.map fun (r, j) => if ids.contains j then { r with processing := true } else r
-
-def lDelete (ids : List Nat) (rows : List LRow) : List LRow :=
-  rows.zipIdx.map fun (r, j) => if ids.contains j && decide (r.vis = .committed) then { r with vis := .deleted } else r
-
-def lStep (s : LState) : LStep → LState
-  | .schedule ra tx =>
-    { s with rows := s.rows ++ [{ executeAt := s.clock + ra, processing := false, vis := .uncommitted tx }] }
-  | .commit tx =>
-    { s with rows := s.rows.map fun r => if r.vis = .uncommitted tx then { r with vis := .committed } else r }
-  | .rollback tx =>
-    { s with rows := s.rows.map fun r => if r.vis = .uncommitted tx then { r with vis := .rolledBack } else r }
-  | .tick n => { s with clock := s.clock + n }
-  | .capture i =>
-    match s.insts[i]? with
-    | some (true, .idle) =>
-      let ids := lCaptureIds s.clock s.rows
-      if ids = [] then s
-      else { s with rows := lMark ids s.rows, insts := s.insts.set i (true, .captured ids) }
-    | _ => s
-  | .invoke i =>
-    match s.insts[i]? with
-    | some (true, .captured ids) =>
-      { s with log := (ids.map fun j => (j, s.clock, i)).reverse ++ s.log
-               insts := s.insts.set i (true, .invoked ids) }
-    | _ => s
-  | .delete i =>
-    match s.insts[i]? with
-    | some (true, .invoked ids) =>
-      { s with rows := lDelete ids s.rows, insts := s.insts.set i (true, .idle) }
-    | _ => s
-  | .crash i =>
-    match s.insts[i]? with
-    | some _ => { s with insts := s.insts.set i (false, .idle) }
-    | none => s
-
-def lRun (s : LState) : List LStep → LState
-  | [] => s
-  | e :: es => lRun (lStep s e) es
 
 end Mistral.Sched
